@@ -193,12 +193,27 @@ macro_rules! common_ops {
                 });
             }
         }
-        // batch normalisation
-        let ps: Vec<$P> = DLOGS.iter().map(|k| pt(*k) + pt(1) - pt(1)).collect();
-        for with_id in [false, true] {
-            let ps: Vec<$P> = ps.iter().filter(|p| with_id || !bool::from(p.is_identity())).cloned().collect();
+        // batch normalisation: no identity, and the identity first, in the middle, last, twice, everywhere
+        let base: Vec<$P> = DLOGS.iter().filter(|k| **k != 0).map(|k| pt(*k) + pt(1) - pt(1)).collect();
+        let id = <$P>::identity();
+        let n = base.len();
+        let mut lists: Vec<Vec<$P>> = vec![base.clone()];
+        for pos in [0, 1, n / 2, n - 1, n] {
+            let mut l = base.clone();
+            l.insert(pos, id);
+            lists.push(l);
+        }
+        let mut l = base.clone();
+        l.insert(n, id);
+        l.insert(2, id);
+        lists.push(l);
+        lists.push(vec![id, id]);
+        lists.push(vec![base[0], id]);
+        lists.push(vec![id]);
+        lists.push(vec![]);
+        for ps in lists {
             let r = catch_unwind(AssertUnwindSafe(|| {
-                let mut outs: Vec<$A> = ps.iter().map(|_| <$P>::identity().to_affine()).collect();
+                let mut outs: Vec<$A> = ps.iter().map(|_| <$P>::generator().to_affine()).collect();
                 <$P>::batch_normalize(&ps, &mut outs);
                 outs
             }));
